@@ -108,3 +108,79 @@ Proof.
   destruct (harmonic fs use_cotan cot free bnd U V Ub Vb ND LUb LVb SU SV i' Hi') as [A B].
   fold p in A, B. unfold N. rewrite A, B. ring.
 Qed.
+
+(* ------------------------------------------------------------------ convex hull form.
+   [in_hull pts x]: x lies in every closed half-plane that contains all the points pts - for a finite point set this
+   intersection IS its closed convex hull (finite-dimensional separation; that classical fact is not re-proved here,
+   the easy inclusion is [hull_contains_combinations] below). *)
+Definition in_hull (pts : list (Q * Q)) (x : Q * Q) : Prop :=
+  forall a b g : Q, (forall y, In y pts -> a * fst y + b * snd y <= g) -> a * fst x + b * snd x <= g.
+
+(* every convex combination of the points is in the hull *)
+Fixpoint comb (l : list (Q * (Q * Q))) : Q * Q :=
+  match l with [] => (0, 0) | (w, y) :: t => (w * fst y + fst (comb t), w * snd y + snd (comb t)) end.
+Fixpoint wtot (l : list (Q * (Q * Q))) : Q := match l with [] => 0 | (w, _) :: t => w + wtot t end.
+
+Lemma hull_contains_combinations pts l :
+  (forall w y, In (w, y) l -> 0 <= w /\ In y pts) -> wtot l == 1 -> in_hull pts (comb l).
+Proof.
+  intros Hl H1 a b g Hg.
+  assert (K : a * fst (comb l) + b * snd (comb l) <= wtot l * g).
+  { clear H1. induction l as [|[w y] t IH]; cbn [comb wtot fst snd]; [lra|].
+    destruct (Hl w y (or_introl eq_refl)) as [Hw Hy]. specialize (Hg y Hy).
+    assert (IH' : a * fst (comb t) + b * snd (comb t) <= wtot t * g).
+    { apply IH. intros w' y' H'. apply Hl. now right. }
+    assert (w * (a * fst y + b * snd y) <= w * g) by nra.
+    lra. }
+  rewrite H1 in K. lra.
+Qed.
+
+(* uniform weights (the generated 1/2 per face edge): positivity is automatic *)
+Theorem max_principle_uniform fs cot free bnd U V Ub Vb :
+  NoDup (free ++ bnd) -> length Ub = length bnd -> length Vb = length bnd ->
+  let T := lap_triplets fs false cot in
+  is_solution_U T free bnd Ub Vb U -> is_solution_V T free bnd Ub Vb V ->
+  let p := pos free bnd U V Ub Vb in
+  let N := fun i => nbrs 0 fs (cot_opt false cot) i in
+  (forall i j w, In i free -> In (j, w) (N i) -> In j free \/ In j bnd) ->
+  (forall i, In i free -> linked N bnd i) ->
+  forall i, In i free -> in_hull (map p bnd) (p i).
+Proof.
+  intros ND LUb LVb T SU SV p N Hcl Hlink i Hi a b g Hg.
+  apply (max_principle fs false cot free bnd U V Ub Vb ND LUb LVb SU SV) with (i := i); auto.
+  - intros i' j w _ Hin. unfold cot_opt in Hin. cbn in Hin. rewrite (nbrs_uniform _ _ _ _ _ Hin). reflexivity.
+  - intros x Hx. apply Hg. apply in_map. exact Hx.
+Qed.
+
+(* general weights: the hull form of max_principle *)
+Theorem max_principle_hull fs use_cotan cot free bnd U V Ub Vb :
+  NoDup (free ++ bnd) -> length Ub = length bnd -> length Vb = length bnd ->
+  let T := lap_triplets fs use_cotan cot in
+  is_solution_U T free bnd Ub Vb U -> is_solution_V T free bnd Ub Vb V ->
+  let p := pos free bnd U V Ub Vb in
+  let N := fun i => nbrs 0 fs (cot_opt use_cotan cot) i in
+  (forall i j w, In i free -> In (j, w) (N i) -> 0 < w) ->
+  (forall i j w, In i free -> In (j, w) (N i) -> In j free \/ In j bnd) ->
+  (forall i, In i free -> linked N bnd i) ->
+  forall i, In i free -> in_hull (map p bnd) (p i).
+Proof.
+  intros ND LUb LVb T SU SV p N Hpos Hcl Hlink i Hi a b g Hg.
+  apply (max_principle fs use_cotan cot free bnd U V Ub Vb ND LUb LVb SU SV) with (i := i); auto.
+  intros x Hx. apply Hg. apply in_map. exact Hx.
+Qed.
+
+(* consequence on the square target: a point in the hull of points of the unit square lies in the unit square *)
+Lemma hull_in_box pts x :
+  (forall y, In y pts -> 0 <= fst y /\ fst y <= 1 /\ 0 <= snd y /\ snd y <= 1) -> in_hull pts x ->
+  0 <= fst x /\ fst x <= 1 /\ 0 <= snd x /\ snd x <= 1.
+Proof.
+  intros Hb Hx. repeat split.
+  - specialize (Hx (-1) 0 0). assert (-1 * fst x + 0 * snd x <= 0); [|lra].
+    apply Hx. intros y Hy. destruct (Hb y Hy) as (A & B & C & D). lra.
+  - specialize (Hx 1 0 1). assert (1 * fst x + 0 * snd x <= 1); [|lra].
+    apply Hx. intros y Hy. destruct (Hb y Hy) as (A & B & C & D). lra.
+  - specialize (Hx 0 (-1) 0). assert (0 * fst x + -1 * snd x <= 0); [|lra].
+    apply Hx. intros y Hy. destruct (Hb y Hy) as (A & B & C & D). lra.
+  - specialize (Hx 0 1 1). assert (0 * fst x + 1 * snd x <= 1); [|lra].
+    apply Hx. intros y Hy. destruct (Hb y Hy) as (A & B & C & D). lra.
+Qed.
